@@ -61,6 +61,55 @@ theorem old_wrong_iff (sec nsec : Int) (h0 : 0 ≤ nsec) (h1 : nsec < 1000000000
     toUnixMicrosOld sec nsec ≠ nearestMicros sec nsec ↔ 999999500 ≤ nsec := by
   simp only [toUnixMicrosOld, roundUs, nearestMicros]; omega
 
+/-- the other direction: on an instant that already is a whole number of microseconds the pair
+`FromUnixMicros ∘ ToUnixMicros` gives the instant back, exactly — nothing is lost by storing it. -/
+theorem roundtrip_aligned (sec nsec : Int) (h0 : 0 ≤ nsec) (h1 : nsec < 1000000000)
+    (ha : nsec % 1000 = 0) :
+    fromUnixMicros (toUnixMicros sec nsec) = (sec, nsec) := by
+  have := tdm (toUnixMicros sec nsec)
+  rw [toUnixMicros_nearest _ _ h0 h1] at this ⊢
+  simp only [nearestMicros] at this ⊢
+  simp only [fromUnixMicros]
+  split <;> (refine Prod.ext ?_ ?_ <;> simp only [] <;> omega)
+
+/-- in general `FromUnixMicros ∘ ToUnixMicros` is the rounding `t.Round(time.Microsecond)` itself -/
+theorem from_to_is_round (sec nsec : Int) (h0 : 0 ≤ nsec) (h1 : nsec < 1000000000) :
+    fromUnixMicros (toUnixMicros sec nsec) = roundUs sec nsec := by
+  have := tdm (toUnixMicros sec nsec)
+  rw [toUnixMicros_nearest _ _ h0 h1] at this ⊢
+  simp only [nearestMicros] at this ⊢
+  simp only [fromUnixMicros, roundUs]
+  split <;> (refine Prod.ext ?_ ?_ <;> simp only [] <;> omega)
+
+/-- rounding is idempotent: a rounded instant converts to the same microsecond count -/
+theorem toUnixMicros_round_idem (sec nsec : Int) (h0 : 0 ≤ nsec) (h1 : nsec < 1000000000) :
+    toUnixMicros (roundUs sec nsec).1 (roundUs sec nsec).2 = toUnixMicros sec nsec := by
+  rw [← from_to_is_round _ _ h0 h1, roundtrip]
+
+/-- `FromUnixMicros` is injective: two different counts never denote one instant … -/
+theorem fromUnixMicros_injective (a b : Int) (h : fromUnixMicros a = fromUnixMicros b) : a = b := by
+  rw [← roundtrip a, ← roundtrip b, h]
+
+/-- … and `ToUnixMicros` is onto: every count is the image of a normalised instant. -/
+theorem toUnixMicros_surjective (us : Int) :
+    ∃ sec nsec, 0 ≤ nsec ∧ nsec < 1000000000 ∧ toUnixMicros sec nsec = us :=
+  ⟨_, _, (fromUnixMicros_normalised us).1, (fromUnixMicros_normalised us).2, roundtrip us⟩
+
+/-- `FromUnixMicros` denotes the instant `us` microseconds after the epoch, to the nanosecond -/
+theorem fromUnixMicros_value (us : Int) :
+    (fromUnixMicros us).1 * 1000000000 + (fromUnixMicros us).2 = us * 1000 := by
+  have := tdm us
+  simp only [fromUnixMicros]; split <;> simp only [] <;> omega
+
+/-- hence strictly monotone on the time line -/
+theorem fromUnixMicros_strictMono (a b : Int) (h : a < b) :
+    (fromUnixMicros a).1 * 1000000000 + (fromUnixMicros a).2 <
+    (fromUnixMicros b).1 * 1000000000 + (fromUnixMicros b).2 := by
+  rw [fromUnixMicros_value, fromUnixMicros_value]; omega
+
+example : fromUnixMicros (toUnixMicros (-1) 999999000) = (-1, 999999000) := by decide
+example : fromUnixMicros (toUnixMicros 0 999999500) = (1, 0) := by decide
+
 /-! ## Timer -/
 
 /-- Invariant of the wrapper under the contract (Read is set by `recv`, i.e. after each receive). -/
